@@ -22,9 +22,12 @@
         image of [enc_value];
       * `is` / `is not` are defined only against None / True / False; on numbers they are
         stuck (identity of ints is not a function of their value: seeded C11-3);
+      * a list and a tuple are different values ([VList] / [VTup]): the published and stored
+        active set is a tuple, `list.remove` needs a list, `tuple + list` is stuck;
       * set.pop() takes the first element of the list that represents the set (as the model:
         the keys are distinct topics), dict.popitem() the last inserted item. *)
 From NL Require Import Events.Grammar Registrars.Model Registrars.Syntax Gen.RegistrarsFuns Gen.HookOrder Registrars.Order.
+From NL Require Registrars.NoRaise.
 Local Open Scope string_scope.
 Local Open Scope list_scope.
 Local Open Scope Z_scope.
@@ -72,6 +75,7 @@ Definition veq (a b : val) : option bool :=
   | VKey p x, VKey q y => if String.eqb p q then Some (x =? y) else None
   | VStr s, VKey p _ | VKey p _, VStr s => if String.prefix p s then None else Some false
   | VTup x, VTup y => Some (zlist_eqb x y)
+  | VList x, VList y => Some (zlist_eqb x y)
   | _, _ => Some false
   end.
 
@@ -91,7 +95,7 @@ Definition truthy (v : val) : option bool :=
   | VBool b => Some b
   | VInt z => Some (negb (z =? 0))
   | VStr s => Some (negb (String.eqb s ""))
-  | VTup l => Some (match l with [] => false | _ => true end)
+  | VTup l | VList l => Some (match l with [] => false | _ => true end)
   | VRec _ _ | VKey _ _ => Some true
   | VFld _ _ => None
   end.
@@ -145,8 +149,13 @@ Fixpoint eval (st : store) (lo : locals) (e : expr) {struct e} : res val :=
   | ETuple1 e' => bind (eval st lo e') (fun v => match v with VInt z => Ok (VTup [z]) | _ => Stuck end)
   | EConcat a b =>
       bind (eval st lo a) (fun x => bind (eval st lo b) (fun y =>
-        match x, y with VTup l, VTup l' => Ok (VTup (l ++ l')) | _, _ => Stuck end))
-  | ESeqCopy e' => bind (eval st lo e') (fun v => match v with VTup l => Ok (VTup l) | _ => Stuck end)
+        match x, y with
+        | VTup l, VTup l' => Ok (VTup (l ++ l'))
+        | VList l, VList l' => Ok (VList (l ++ l'))
+        | _, _ => Stuck                               (* tuple + list: TypeError, not modelled *)
+        end))
+  | EListOf e' => bind (eval st lo e') (fun v => match v with VTup l | VList l => Ok (VList l) | _ => Stuck end)
+  | ETupleOf e' => bind (eval st lo e') (fun v => match v with VTup l | VList l => Ok (VTup l) | _ => Stuck end)
   | EEq a b =>
       bind (eval st lo a) (fun x => bind (eval st lo b) (fun y =>
         match veq x y with Some c => Ok (VBool c) | None => Stuck end))
@@ -192,7 +201,7 @@ Fixpoint eval (st : store) (lo : locals) (e : expr) {struct e} : res val :=
   | EFilter x src c =>
       bind (eval st lo src) (fun v =>
         match v with
-        | VTup l =>
+        | VTup l | VList l =>
           bind ((fix go (l : list Z) : res (list Z) :=
                    match l with
                    | [] => Ok []
@@ -202,10 +211,10 @@ Fixpoint eval (st : store) (lo : locals) (e : expr) {struct e} : res val :=
                        | Some keep => bind (go r) (fun r' => Ok (if keep then z :: r' else r'))
                        | None => Stuck
                        end)
-                   end) l) (fun l' => Ok (VTup l'))
+                   end) l) (fun l' => Ok (VList l'))
         | _ => Stuck
         end)
-  | ELen e' => bind (eval st lo e') (fun v => match v with VTup l => Ok (VInt (Z.of_nat (length l))) | _ => Stuck end)
+  | ELen e' => bind (eval st lo e') (fun v => match v with VTup l | VList l => Ok (VInt (Z.of_nat (length l))) | _ => Stuck end)
   | ENew c fs => bind (fields fs) (fun l => Ok (VRec c l))
   | EReplace e' fs =>
       bind (eval st lo e') (fun v => bind (fields fs) (fun l =>
@@ -338,8 +347,8 @@ Fixpoint exec (fuel : nat) (s : stmt) (c : cfg) {struct s} : sres :=
   | SListRemove x e =>
       with_val (ev e) c (fun v =>
         match lookup (c_lo c) x, v with
-        | Some (VTup l), VInt z =>
-          if existsb (Z.eqb z) l then Some (ONormal, set_lo c x (VTup (remove_first l z)))
+        | Some (VList l), VInt z =>
+          if existsb (Z.eqb z) l then Some (ONormal, set_lo c x (VList (remove_first l z)))
           else Some (ORaise ValueError, c)
         | _, _ => None
         end)
@@ -545,15 +554,16 @@ Definition loadR (rn : Z) (s : R) : gstore :=
    ("TraceInfoRegistrar", load_ti (r_ti s)); ("TraceNumbersRegistrar", load_tn (r_tn s));
    ("RunInfoRegistrar", load_ri rn (r_ri s)); ("RunNoRegistrar", []); ("StateNameRegistrar", []); ("ScriptRegistrar", [])].
 
-(** the encoded state has exactly the classes (registration order) and the tracked attributes
-    (with their kinds) that the translator found in the source *)
+(** PIN: the encoded state has exactly the classes (registration order) and the tracked
+    attributes (with their kinds) that the translator found in the source *)
 Definition kind_of (k : cont) : kind := match k with CVal _ => KVal | CDict _ => KDict | CSet _ => KSet end.
 Lemma loadR_shape : forall rn s,
   map (fun cs => (fst cs, map (fun ak => (fst ak, kind_of (snd ak))) (snd cs))) (loadR rn s) =
   map (fun g => (g_name g, g_attrs g)) registrars.
 Proof. intros. reflexivity. Qed.
 
-(** the dispatch table is the one of Gen/HookOrder.v (tied to the model in Registrars/Order.v) *)
+(** PIN (two regenerated tables agree): the dispatch table is the one of Gen/HookOrder.v (tied to
+    the model in Registrars/Order.v) *)
 Lemma dispatch_same : funs_dispatch = on_event_dispatch.
 Proof. reflexivity. Qed.
 
@@ -1024,3 +1034,145 @@ Proof.
   replace (key_is k (VStr "run_no")) with false by (destruct k; reflexivity).
   apply g_on_topic_enc.
 Qed.
+
+(** ------------------------------------------------------------------ the relay dies at the first exception
+
+    [run_events] / [run_whole] above (like Model.feed / pubs_run) go on after a hook
+    implementation raised.  The code does not: the exception leaves
+    `ahook.on_event_in_process`, the relay task `_monitor` ends with it, the remaining events
+    are not dispatched and `_on_end_run` is not awaited (`await task` re-raises in the
+    `finally` of relay_events).  Within the event that raised, every implementation of the hook
+    still runs (`gather` does not cancel the others and none of them suspends).
+    [run_events_stop] / [run_whole_stop] are the drivers with that behaviour; the last component
+    says whether the run was cut short by an exception. *)
+
+Definition graised (ps : list gpub) : bool :=
+  existsb (fun p => match p with GRaise _ => true | _ => false end) ps.
+
+Fixpoint run_events_stop (rn : Z) (G : gstore) (es : list event) : option (gstore * list gpub * bool) :=
+  match es with
+  | [] => Some (G, [], false)
+  | e :: r =>
+    match run_event rn G e with
+    | None => None
+    | Some (G1, p) =>
+      if graised p then Some (G1, p, true)
+      else match run_events_stop rn G1 r with
+           | None => None
+           | Some (G2, q, b) => Some (G2, p ++ q, b)
+           end
+    end
+  end.
+
+(** the same on the model's functions *)
+Fixpoint feed_stop (rn : Z) (s : R) (es : list event) : R * list publication * bool :=
+  match es with
+  | [] => (s, [], false)
+  | e :: r =>
+    let '(s1, p) := on_event rn s e in
+    if raised p then (s1, p, true)
+    else let '(s2, q, b) := feed_stop rn s1 r in (s2, p ++ q, b)
+  end.
+
+Lemma graised_enc : forall ps, graised (map enc_pub ps) = raised ps.
+Proof. induction ps as [|[k v|k|w] r IH]; simpl; auto. Qed.
+
+Theorem tie_feed_stop : forall rn es s,
+  run_events_stop rn (loadR rn s) es =
+  Some (loadR rn (fst (fst (feed_stop rn s es))), map enc_pub (snd (fst (feed_stop rn s es))), snd (feed_stop rn s es)).
+Proof.
+  induction es as [|e r IH]; intros; [reflexivity|].
+  simpl. rewrite tie_on_event. destruct (on_event rn s e) as [s1 p]. cbn [fst snd]. rewrite graised_enc.
+  destruct (raised p); [reflexivity|]. rewrite IH. destruct (feed_stop rn s1 r) as [[s2 q] b]. cbn [fst snd].
+  rewrite map_app. reflexivity.
+Qed.
+
+Lemma feed_stop_no_raise : forall rn es s,
+  raised (snd (feed rn s es)) = false -> feed_stop rn s es = (fst (feed rn s es), snd (feed rn s es), false).
+Proof.
+  induction es as [|e r IH]; intros s H; [reflexivity|].
+  simpl in *. destruct (on_event rn s e) as [s1 p]. destruct (feed rn s1 r) as [s2 q] eqn:E. simpl in H.
+  unfold raised in H. rewrite existsb_app in H. apply orb_false_iff in H. destruct H as [H1 H2].
+  unfold raised. rewrite H1. rewrite IH; rewrite E; auto.
+Qed.
+
+Definition run_whole_stop (rn : Z) (es : list event) : option (gstore * list gpub * bool) :=
+  match call_hook rn "on_initialize_run" [] (loadR rn R0) with
+  | None => None
+  | Some (G1, p1) =>
+    if graised p1 then Some (G1, p1, true) else
+    match call_hook rn "on_start_run" start_run_arg G1 with
+    | None => None
+    | Some (G2, p2) =>
+      if graised p2 then Some (G2, p1 ++ p2, true) else
+      match run_events_stop rn G2 es with
+      | None => None
+      | Some (G3, p3, true) => Some (G3, p1 ++ p2 ++ p3, true)          (* relay dead: no on_end_run *)
+      | Some (G3, p3, false) =>
+        match call_hook rn "on_end_run" end_run_arg G3 with
+        | None => None
+        | Some (G4, p4) => Some (G4, p1 ++ p2 ++ p3 ++ p4, graised p4)
+        end
+      end
+    end
+  end.
+
+(** for a stream accepted by C09's prefix recogniser (a well-formed stream cut anywhere) nothing
+    raises (Registrars/NoRaise.v), so the faithful driver never stops early and is the model's
+    [pubs_run]: the theorems of Props/C11.v are about the run the code really performs *)
+Theorem tie_whole_run_stop : forall rn es, wf_prefix rn es = true ->
+  run_whole_stop rn es =
+  Some (loadR rn (fst (on_end_run rn (state_events rn es))),
+        GPub (VStr "run_no") (VInt rn) :: map enc_pub (pubs_run rn es), false).
+Proof.
+  intros rn es Hwf. pose proof (NoRaise.no_raise _ _ Hwf) as Hn.
+  unfold run_whole_stop. unfold pubs_run, pubs_events, pubs_end, state_events, R1 in *.
+  rewrite tie_on_initialize_run. destruct (on_initialize_run rn R0) as [s1 p1]. cbn [fst snd] in *.
+  rewrite tie_on_start_run. destruct (on_start_run rn s1) as [s2 p2]. cbn [fst snd] in *.
+  rewrite tie_feed_stop.
+  rewrite !NoRaise.raised_app in Hn.
+  apply orb_false_iff in Hn. destruct Hn as [Hn H4].
+  apply orb_false_iff in Hn. destruct Hn as [H1 Hn].
+  apply orb_false_iff in Hn. destruct Hn as [H2 H3].
+  rewrite (feed_stop_no_raise rn es s2) by assumption.
+  destruct (feed rn s2 es) as [s3 p3]. cbn [fst snd] in *.
+  cbn [graised existsb map enc_pub]. rewrite graised_enc.
+  rewrite H1.
+  rewrite graised_enc, H2.
+  rewrite tie_on_end_run. destruct (on_end_run rn s3) as [s4 p4]. cbn [fst snd] in *.
+  rewrite graised_enc. rewrite !map_app. cbn [app].
+  rewrite H4.
+  rewrite <- !app_assoc. reflexivity.
+Qed.
+
+(** a stream the grammar rejects (OnStartPrompt outside a trace call): PromptInfoRegistrar and
+    PromptNoticeRegistrar raise KeyError, the relay dies, prompt_notice is never ended *)
+Example run_stops_at_raise :
+  option_map (fun x => (snd x, g_on_topic TPromptNotice (snd (fst x))))
+    (run_whole_stop 1 [StartTrace 1 1 10; StartPrompt 1 1 1 1 3; EndTrace 1 1]) = Some (true, []).
+Proof. vm_compute. reflexivity. Qed.
+
+(** ------------------------------------------------------------------ what is NOT translated (a pin)
+
+    PIN: the text (`ast.unparse`) of every position of a hook implementation that the translator
+    left out: asserts that do not mention self (on the context and on time stamps: ASSUMED to
+    hold), statements that bind locals used only for untracked dataclass fields, and the values
+    given for the untracked fields (time stamps; script / result / exception of RunInfo).  An
+    edit of any of them -- a new assert on time stamps, a call put into one of these values --
+    changes [Gen.RegistrarsFuns.untranslated] and breaks this equation. *)
+Example untranslated_pinned :
+  untranslated =
+  [("StdoutRegistrar.on_write_stdout", ["assert context.run_arg"; "StdoutInfo: written_at=event.written_at"]);
+   ("PromptNoticeRegistrar.on_start_prompt", ["assert context.run_arg"; "PromptNotice: started_at=event.started_at"]);
+   ("PromptInfoRegistrar.on_start_trace", ["assert context.run_arg"]);
+   ("PromptInfoRegistrar.on_end_trace_call", ["assert context.run_arg"]);
+   ("PromptInfoRegistrar.on_start_prompt", ["assert context.run_arg"; "PromptInfo: started_at=event.started_at"]);
+   ("PromptInfoRegistrar.on_end_prompt", ["replace: ended_at=event.ended_at"]);
+   ("TraceInfoRegistrar.on_end_run", ["replace: ended_at=datetime.datetime.utcnow()"]);
+   ("TraceInfoRegistrar.on_start_trace", ["assert context.run_arg"; "TraceInfo: started_at=event.started_at"]);
+   ("TraceInfoRegistrar.on_end_trace", ["replace: ended_at=event.ended_at"]);
+   ("RunInfoRegistrar.on_initialize_run", ["assert context.run_arg"; "if isinstance(context.run_arg.statement, str): script = context.run_arg.statement else: script = None"; "RunInfo: script=script"]);
+   ("RunInfoRegistrar.on_start_run", ["assert event.started_at.tzinfo is timezone.utc"; "started_at = event.started_at.replace(tzinfo=None)"; "replace: started_at=started_at"]);
+   ("RunInfoRegistrar.on_end_run", ["assert event.ended_at.tzinfo is timezone.utc"; "ended_at = event.ended_at.replace(tzinfo=None)"; "replace: ended_at=ended_at"; "replace: exception=event.raised"; "replace: result=event.returned"]);
+   ("RunNoRegistrar.on_initialize_run", ["assert context.run_arg"])].
+Proof. reflexivity. Qed.
